@@ -91,7 +91,7 @@ func (c19) RequiredCounters(string) []string {
 		"engine_events_released", "closes",
 		"server_msgs.tws.connection_ack", "server_msgs.tws.pong", "server_msgs.tws.next", "server_msgs.tws.error", "server_msgs.tws.complete",
 		"server_msgs.gws.connection_ack", "server_msgs.gws.data", "server_msgs.gws.error", "server_msgs.gws.complete", "server_msgs.gws.connection_error",
-		"close.4400", "close.4401", "close.4408", "close.4409", "close.4429", "runs_racy", "runs_init_timeout"}
+		"close.4400", "close.4401", "close.4408", "close.4409", "close.4429", "runs_racy", "runs_init_timeout", "runs_wire"}
 }
 
 // ---------------------------------------------------------------------------------------------
@@ -107,6 +107,7 @@ const (
 	ckGwsFixed
 	ckGwsRandom
 	ckTimeout
+	ckTwsWire
 )
 
 type segment struct {
@@ -128,6 +129,7 @@ func layout(tier string) []segment {
 			{kind: ckGwsFixed, n: 96, lo: 4, hi: 4},
 			{kind: ckGwsRandom, n: 320, runs: 150},
 			{kind: ckTimeout, n: 32},
+			{kind: ckTwsWire, n: 160, runs: 150},
 		}
 	}
 	return []segment{
@@ -138,6 +140,7 @@ func layout(tier string) []segment {
 		{kind: ckGwsFixed, n: 12, lo: 3, hi: 3},
 		{kind: ckGwsRandom, n: 16, runs: 120},
 		{kind: ckTimeout, n: 8},
+		{kind: ckTwsWire, n: 16, runs: 100},
 	}
 }
 
@@ -265,7 +268,7 @@ func (a *acc) absorb(rr *runResult, key string) {
 		a.keys[key] = true
 	}
 	if res.Sample == nil && nontrivial {
-		res.Sample = map[string]any{"protocol": rr.p.String(), "script": rr.script, "cancel": rr.opts.cancel, "racy": rr.opts.racy, "trace": traceStrings(rr.trace, 24)}
+		res.Sample = map[string]any{"protocol": rr.p.String(), "script": rr.script, "cancel": rr.opts.cancel, "racy": rr.opts.racy, "wire": rr.opts.wire, "trace": traceStrings(rr.trace, 24)}
 	}
 	for _, f := range m.findings {
 		mk, _ := json.Marshal(f.match)
@@ -278,7 +281,7 @@ func (a *acc) absorb(rr *runResult, key string) {
 		}
 		res.Violate(f.kind, fmt.Sprintf("[%s] script %q: %s", rr.p, rr.script, f.msg), f.match, map[string]any{
 			"protocol": rr.p.String(), "script": rr.script, "word": wordString(rr.word), "schedule": scheduleKey(rr.sched),
-			"options":     map[string]any{"cancel": rr.opts.cancel, "racy": rr.opts.racy, "heartbeat": rr.opts.heartbeat.String(), "init_timeout": rr.opts.initTimeout.String(), "abrupt_eof": rr.opts.abruptEOF, "wait_close": rr.opts.waitClose},
+			"options":     map[string]any{"wire": rr.opts.wire, "cancel": rr.opts.cancel, "racy": rr.opts.racy, "heartbeat": rr.opts.heartbeat.String(), "init_timeout": rr.opts.initTimeout.String(), "abrupt_eof": rr.opts.abruptEOF, "wait_close": rr.opts.waitClose},
 			"trace_index": f.at, "trace": traceStrings(rr.trace, 80), "operations": rr.ops, "settled": rr.settled,
 		})
 	}
@@ -350,6 +353,8 @@ func (c19) Run(c *fw.Ctx, idx int) fw.Result {
 		runRandom(c, a, protoGWS, seg, idx)
 	case ckTimeout:
 		runTimeouts(c, a, idx, sub)
+	case ckTwsWire:
+		runWire(c, a, seg, idx)
 	default:
 		res.Inconclusive = "layout: index outside the case list"
 		return res
@@ -523,6 +528,56 @@ func runRandom(c *fw.Ctx, a *acc, p proto, seg segment, idx int) {
 		a.words[pshort(p)+":"+wordString(w)] = true
 		rr := runScript(p, w, sc, o)
 		a.absorb(rr, fw.HashKey(p.String(), rr.script, o.cancel, o.racy, o.heartbeat > 0, o.abruptEOF))
+	}
+}
+
+// runWire: sampled graphql-transport-ws runs served by websocket.Client over an in-memory net.Conn.
+// Half of them have the shape "init, 1..3 subscriptions, a fatal message, with data released around
+// the fatal message" in racy mode, which is where a close frame meets concurrent writers.
+func runWire(c *fw.Ctx, a *acc, seg segment, idx int) {
+	rng := c.Rng(idx, "wire")
+	subsS := filter(twsAlphabet, func(s sym) bool { return s.kind == kSubSub })
+	subsS = append(subsS, sym{name: "Ss3", kind: kSubSub, id: "3"})
+	fatals := []sym{{name: "U", kind: kUnknown}, {name: "J", kind: kBadJSON}, {name: "I", kind: kInit}}
+	for i := 0; i < seg.runs; i++ {
+		var w []sym
+		var sc schedule
+		o := runOpts{wire: true, cancel: []string{"v2", "data", "err"}[rng.IntN(3)]}
+		if rng.IntN(2) == 0 {
+			w = append(w, sym{name: "I", kind: kInit})
+			n := 1 + rng.IntN(3)
+			perm := rng.Perm(len(subsS))
+			for k := 0; k < n; k++ {
+				w = append(w, subsS[perm[k]])
+			}
+			if rng.IntN(4) == 0 {
+				w = append(w, subsS[perm[0]]) // duplicate id
+			} else {
+				w = append(w, pick(rng, fatals))
+			}
+			last := len(w) - 1
+			for k := 1; k <= n; k++ {
+				for e := 0; e < 1+rng.IntN(4); e++ {
+					slot := last
+					if rng.IntN(4) == 0 {
+						slot = last + 1
+					}
+					sc = append(sc, schedEv{op: k, kind: 'd', slot: slot})
+				}
+			}
+			o.racy = true
+		} else {
+			w = randomWord(rng, protoTWS)
+			sc = randomSchedule(rng, protoTWS, w)
+			o.racy = rng.IntN(2) == 0
+			if rng.IntN(4) == 0 {
+				o.heartbeat = time.Duration(100+rng.IntN(900)) * time.Microsecond
+			}
+		}
+		a.words["tws:"+wordString(w)] = true
+		a.res.Count("runs_wire", 1)
+		rr := runScript(protoTWS, w, sc.sorted(), o)
+		a.absorb(rr, fw.HashKey("wire", rr.script, o.cancel, o.racy, o.heartbeat > 0))
 	}
 }
 
